@@ -474,8 +474,10 @@ static void register_extern(CG *cg, const char *name, const char *module_name,
 
     /* Add to codegen extern table */
     ExternFn *ef = &cg->externs[cg->extern_count];
-    ef->name = (char *)name;
-    ef->module_name = (char *)module_name;
+    /* Callers pass stack buffers (e.g. "vm_%s" names): keep the module's own
+     * copies from the string pool, which live as long as the module */
+    ef->name = (char *)nvm_get_string(cg->module, fn_str);
+    ef->module_name = (char *)nvm_get_string(cg->module, mod_str);
     ef->import_idx = imp_idx;
     ef->param_count = param_count;
     ef->return_tag = return_tag;
